@@ -1331,7 +1331,8 @@ def compile_match_expression(compiler, expr, root, subject, clauses):
         expr, targets=[return_var], value=asty.Constant(expr, value=None)
     )
     if not match_cases:
-        return ret + returnable
+        # The subject is still evaluated.
+        return Result() + subject + subject.expr_as_stmt() + ret.stmts[-1] + returnable
 
     for lifted_if in lifted_if_defs:
         ret += lifted_if
